@@ -145,7 +145,12 @@ Definition fiber_sites_ref : list (string * string * string) :=
    ("load_fiber", "fiber.replace", "fiber . as_root ( )");
    ("unload_fiber", "fiber.replace", "caller . as_root ( )");
    ("unload_fiber", "unsafe_fiber :=", "( * caller ) . as_ptr ( )");
+   (* cell-only readers, identical in every build (no fork): walk the cell's fiber and its caller chain *)
+   ("is_loading_module", "fiber read", "as_ref");
    ("reset_stack", "fiber read", "as_ref");
+   (* capture_upvalue MIXES the representations in a raw build: the slot address and the open-upvalue list come from
+      active_fiber() (raw pointer), the recorded owner of the new upvalue from the cell: operation OCapture below *)
+   ("capture_upvalue", "fiber read", "as_ref");
    ("active_fiber", "fiber read", "as_ref");
    ("active_fiber", "unsafe_fiber read", "");
    ("active_fiber_mut", "fiber read", "as_ref");
@@ -179,6 +184,7 @@ Fixpoint caller_of (l : list (N * option N)) (i : N) : option N :=
 Inductive fres : Type :=
 | FOk
 | FErr (msg : string)       (* Err(...) returned, an ordinary yarel error *)
+| FCaptured (stack_of owner : N)   (* capture_upvalue: fiber whose stack holds the slot, fiber recorded as owner *)
 | FPanic                    (* checked build: `self.fiber.as_ref().unwrap()` on None *)
 | FUB.                      (* raw build: dereference of a null / stale pointer *)
 
@@ -197,7 +203,8 @@ Definition active (cell : bool) (s : fstate) : option N + fres :=
 Inductive fop : Type :=
 | OExecute (f : N) (arity_ok : bool)   (* Vm::execute creating the fresh fiber f *)
 | OLoad (f : N)                        (* load_fiber(f, _)  - Fiber.call *)
-| OUnload.                             (* unload_fiber(_)   - Fiber.yield / return from a fiber *)
+| OUnload                              (* unload_fiber(_)   - Fiber.yield / return from a fiber *)
+| OCapture.                            (* capture_upvalue: a closure captures a local of the running fiber *)
 
 (* load_fiber (vm.rs:470-514), the part before the switch:
    if self.fiber.is_some() { ...; self.active_fiber_mut().current_frame_mut().unwrap().ip = self.ip } *)
@@ -246,6 +253,19 @@ Definition unload_fiber (cell : bool) (s : fstate) : fres * fstate :=
     end
   end.
 
+(* capture_upvalue: `self.active_fiber().stack.as_ptr().offset(location)` / `.open_upvalues` go through the build's
+   representation; `let owner = self.fiber.as_ref().expect("Expected fiber.").as_gc()` always through the cell *)
+Definition capture_upvalue (cell : bool) (s : fstate) : fres * fstate :=
+  match active cell s with
+  | inr r => (r, s)
+  | inl None => (FPanic, s)
+  | inl (Some a) =>
+    match fiber s with
+    | Some o => (FCaptured a o, s)
+    | None => (FPanic, s)                     (* expect("Expected fiber.") *)
+    end
+  end.
+
 (* execute (vm.rs:183-206): self.fiber = None; [allocations]; arity check (early return); load_fiber *)
 Definition execute_begin (s : fstate) : fstate := mkF None (unsafe_fiber s) (callers s).
 Definition execute (cell : bool) (f : N) (arity_ok : bool) (s : fstate) : fres * fstate :=
@@ -257,6 +277,7 @@ Definition fstep (cell : bool) (o : fop) (s : fstate) : fres * fstate :=
   | OExecute f ok => execute cell f ok s
   | OLoad f => load_fiber cell f s
   | OUnload => unload_fiber cell s
+  | OCapture => capture_upvalue cell s
   end.
 
 Definition fstops (r : fres) : bool := match r with FPanic | FUB => true | _ => false end.
